@@ -68,6 +68,8 @@ def reg_preset(rng):
 # --------------------------------------------------------------------------- single instructions
 
 def gen_alu(rng):
+    if rng.random() < 0.04:
+        return [MN["addi"], 0, 0, 0]              # the canonical nop
     k = rng.random()
     rd, rs1, rs2 = small_reg(rng), small_reg(rng), small_reg(rng)
     if k < 0.5:
@@ -152,6 +154,15 @@ def gen_program(rng, maxlen=30, aligned_only=False, allow_fault=True, ecalls=Tru
             prog.append([MN["ecall"]])
         else:
             prog.append(gen_alu(rng))
+    if rng.random() < 0.3:
+        # hot locations: repeat an existing store (same base register and offset) at a few more places
+        stores = [t for t in prog if t[0] in S_OPS]
+        for _ in range(rng.randrange(1, 4)):
+            if stores:
+                t = list(rng.choice(stores))
+                t[2] = small_reg(rng)
+                prog.insert(rng.randrange(0, len(prog) + 1), t)
+        # branch offsets were computed before the insertion; programs stay well-formed (targets may shift)
     return prog
 
 
